@@ -48,6 +48,7 @@ def sname(status):
 class Trace:
     def __init__(self):
         self.seq = 0
+        self.seq_tick = [0]  # seq -> tick
         self.tick = -1  # index of the market book being processed (all markets)
         self.ticks = []  # tick -> dict(market, pt, status, ...)
         self._pending_books = []
@@ -80,12 +81,22 @@ class Trace:
         self.framework = None
         self.script_log = []
         self.tags = {}  # okey/tkey -> set(root-cause markers)
+        self.shadow = collections.defaultdict(list)  # market -> orders accepted by place_order (C15)
+        self.placed_trades = set()  # id(trade) of trades charged to a runner context (executed placements)
+        self.reused_complete_trades = set()  # a new order was placed in an already COMPLETE trade (outside C10)
+        self.distinct = set()
+        self.rng = None
+        self.want_positions = False  # snapshot the strategy's position at PLACE/REPLACE requests (C01)
         self.observers = []  # callables (tr, market, phase) run inside auditor callbacks
         self.mw_observers = []  # same, run inside the auditor middleware
 
     def nseq(self):
         self.seq += 1
+        self.seq_tick.append(self.tick)
         return self.seq
+
+    def ticks_of_seq(self, seq):
+        return max(0, self.seq_tick[seq])
 
     def okey(self, order):
         k = self.okeys.get(id(order))
@@ -180,6 +191,41 @@ def world_view(order, market):
     return v
 
 
+def exposure_view(order):
+    """Fields the exchange itself reports for a bet; input of the brute-force exposure oracle (C01, C16)."""
+    ot = order.order_type
+    return {
+        "status": sname(order.status),
+        "complete": order.complete,
+        "side": order.side,
+        "otype": OT[ot.ORDER_TYPE],
+        "ladder": getattr(ot, "price_ladder_definition", None),
+        "price": getattr(ot, "price", None),
+        "size": getattr(ot, "size", None),
+        "liability": getattr(ot, "liability", None),
+        "matched": order.size_matched,
+        "avg": order.average_price_matched,
+        "remaining": order.size_remaining,
+        "sel": (order.selection_id, order.handicap),
+    }
+
+
+def position_view(market, strategy):
+    return [dict(exposure_view(o), o=TR.okey(o)) for o in market.blotter._strategy_orders.get(strategy, [])]
+
+
+def book_view(market):
+    mb = market.market_book
+    if mb is None:
+        return None
+    return {
+        "number_of_winners": mb.number_of_winners,
+        "number_of_active_runners": mb.number_of_active_runners,
+        "active": [(r.selection_id, r.handicap) for r in mb.runners if r.status == "ACTIVE"],
+        "status": mb.status,
+    }
+
+
 def attach(tr):
     global TR
     TR = tr
@@ -231,12 +277,31 @@ def attach(tr):
                 except Exception:
                     before = None
                 pend_before = (len(self._pending_place), len(self._pending_cancel), len(self._pending_update), len(self._pending_replace))
+                try:
+                    bound = _SIGS[kind].bind(self, order, *a, **kw)
+                    bound.apply_defaults()
+                    params = dict(bound.arguments)
+                except TypeError:
+                    params = {}
+                trade = order.trade
+                strategy = trade.strategy
                 rec = {
                     "seq": TR.nseq(),
                     "tick": TR.tick,
                     "clock": TR.clock,
                     "kind": kind,
                     "o": k,
+                    "t": TR.tkey(trade),
+                    "strategy": strategy.name,
+                    "lookup": order.lookup,
+                    "force": bool(params.get("force")),
+                    "execute": bool(params.get("execute", True)),
+                    "new_price": params.get("new_price"),
+                    "size_reduction": params.get("size_reduction"),
+                    "trade_params": (trade.reset_seconds, trade.place_reset_seconds, trade.pending_orders),
+                    "trade_status": trade.status.name,
+                    "position": position_view(self.market, strategy) if kind in ("PLACE", "REPLACE") and TR.want_positions else None,
+                    "book": book_view(self.market) if kind in ("PLACE", "REPLACE") and TR.want_positions else None,
                     "args": [repr(x) for x in a],
                     "kw": {x: repr(y) for x, y in kw.items()},
                     "before": before,
@@ -254,6 +319,14 @@ def attach(tr):
                     rec["pend"] = (pend_before, (len(self._pending_place), len(self._pending_cancel), len(self._pending_update), len(self._pending_replace)))
                     raise
                 rec["result"] = res
+                if kind == "PLACE" and res:
+                    TR.shadow[market.market_id].append(order)
+                    if rec["execute"]:
+                        TR.placed_trades.add(id(trade))
+                        if rec["trade_status"] == "COMPLETE":
+                            TR.reused_complete_trades.add(id(trade))
+                    else:
+                        order._vf_replacement = True
                 rec["after"] = world_view(order, market)
                 rec["pend"] = (pend_before, (len(self._pending_place), len(self._pending_cancel), len(self._pending_update), len(self._pending_replace)))
                 TR.counters["req_" + kind] += 1
@@ -263,6 +336,14 @@ def attach(tr):
 
         return maker
 
+    import inspect
+
+    _SIGS = {
+        "PLACE": inspect.signature(Transaction.__dict__["place_order"]),
+        "CANCEL": inspect.signature(Transaction.__dict__["cancel_order"]),
+        "UPDATE": inspect.signature(Transaction.__dict__["update_order"]),
+        "REPLACE": inspect.signature(Transaction.__dict__["replace_order"]),
+    }
     _wrap(Transaction, "place_order", mk_request("PLACE"))
     _wrap(Transaction, "cancel_order", mk_request("CANCEL"))
     _wrap(Transaction, "update_order", mk_request("UPDATE"))
@@ -794,11 +875,15 @@ _CONFIG_KEYS = ("place_latency", "cancel_latency", "update_latency", "replace_la
 _CONFIG_DEFAULT = {k: getattr(fconfig, k) for k in _CONFIG_KEYS}
 
 
-def run_case(case, extra_strategies=None, audit=True, pre_run=None, observers=(), mw_observers=()):
+def run_case(case, extra_strategies=None, audit=True, pre_run=None, observers=(), mw_observers=(), want_positions=False):
     """case: dict(markets=[{id,text}], strategies=[...], clients=[...], config={...}, event_processing, listener_kwargs,
     line_results={market_id: value}).  Returns the Trace."""
     tr = Trace()
     tr.observers = list(observers)
+    tr.want_positions = want_positions
+    import random as _random
+
+    tr.rng = _random.Random(case.get("seed", 0) * 7 + case.get("idx", 0))
     tr.mw_observers = list(mw_observers)
     attach(tr)
     tmp = tempfile.mkdtemp(prefix="vf_")
